@@ -189,6 +189,9 @@ def cells(tier, seed):
                     scales.append("covprop")
                 for sc in scales:
                     yield {"iface": iface, "kernel": kernel, "target": t, "scale": sc, "cat": k, "tier": tier}
+                    if sc == "s0.6" and t in ("gauss2c", "banana2", "libpost2", "quart+shift2", "glik+shift1"):
+                        # representation of the initial point: integer-valued states handed over as an integer-dtype array
+                        yield {"iface": iface, "kernel": kernel, "target": t, "scale": sc, "cat": k, "tier": tier, "x0rep": "int"}
                     if kernel == "PCN" and iface == "legacy" and (sc == "s0.6" or tier == "thorough"):
                         # documented second target form of the stateless pCN: the tuple (likelihood, prior)
                         yield {"iface": iface, "kernel": kernel, "target": t, "scale": sc, "cat": k, "tier": tier, "form": "tuple"}
@@ -222,6 +225,8 @@ class Adapter:
 
     def construct(self, x):
         x = np.array(x, dtype=float)
+        if self.cell.get("x0rep") == "int" and np.all(x == np.round(x)):
+            x = np.array(np.round(x), dtype=int)      # (auxiliary constructions at non-integer points stay float)
         kw = {}
         if self.proposal is not None:
             kw["proposal"] = self.proposal
@@ -303,8 +308,10 @@ def _f(v):
 # ----------------------------------------------------------------------------------------
 # alphabets
 # ----------------------------------------------------------------------------------------
-def states_for(tgt, tier, k):
+def states_for(tgt, tier, k, rep=None):
     d = tgt.dim
+    if rep == "int":
+        return [np.array(b, dtype=float) for b in {1: [[1], [-1], [0]], 2: [[1, -1], [0, 1], [-1, 0]], 3: [[1, -1, 0], [0, 1, 1]]}[d]]
     base = {1: [[-1.25], [-0.25], [0.5], [0.75]],
             2: [[-1.0, 0.5], [0.25, -0.75], [0.5, 1.25], [-0.5, -0.25]],
             3: [[-1.0, 0.5, 0.25], [0.25, -0.75, 0.5], [0.5, 1.0, -0.5]]}[d]
@@ -342,6 +349,8 @@ def answers_for(d, tier):
 def histories(cell):
     tier, kernel, iface = cell["tier"], cell["kernel"], cell["iface"]
     hs = [("fresh", None)]
+    if cell.get("x0rep"):
+        return hs         # the representation of the initial point only matters for a freshly constructed sampler
     Nbs = (2,) if tier == "quick" else (1, 3)
     for Nb in Nbs:
         nd = Nb * (1 if kernel != "CWMH" else 2)
@@ -370,6 +379,8 @@ def eval_cell(cell):
     comp = "%s.%s" % (cell["iface"], cell["kernel"])
     if cell.get("form"):
         comp += "(target=%s)" % cell["form"]
+    if cell.get("x0rep"):
+        comp += "(x0=%s)" % cell["x0rep"]
     fails = {}   # (op) -> {hist kinds}; first (message, focus, detail) per (op, hist)
     nontriv = False
 
@@ -378,7 +389,7 @@ def eval_cell(cell):
         if hist not in fails[op]:
             fails[op][hist] = (msg, focus, detail)
 
-    X = states_for(tgt, cell["tier"], k)
+    X = states_for(tgt, cell["tier"], k, cell.get("x0rep"))
     XI = answers_for(tgt.dim, cell["tier"])
     for hkind, hpar in histories(cell):
         # ---- prepare the history once; `pos(x)` positions a sampler at x --------------
